@@ -4,6 +4,9 @@
 //! usage: vharness <check> --seed N --tier quick|thorough --model PATH --out REPORT.json
 //!        [--replay FILE]
 //! exit: 0 report written (violations, if any, are inside), 2 tool failure.
+mod fschecks;
+mod fsgen;
+mod fsrun;
 mod json;
 mod mkfs;
 mod model;
@@ -63,13 +66,32 @@ fn main() {
         }
     }
     // keep panic messages of the crate under test out of the way: they are observations
-    std::panic::set_hook(Box::new(|_| {}));
+    std::panic::set_hook(Box::new(|info| {
+        // panics of the harness itself are bugs of the checker and must be visible
+        if let Some(loc) = info.location() {
+            if loc.file().starts_with("src/") {
+                eprintln!("harness panic at {}:{}: {}", loc.file(), loc.line(), info);
+            }
+        }
+    }));
     let ctx = Ctx { seed, thorough, model_path, replay };
     let report: Report = match check.as_str() {
         "c19" => pure_checks::c19(&ctx),
         "c18" => pure_checks::c18(&ctx),
         "c17" => pure_checks::c17(&ctx),
         "c15" => pure_checks::c15(&ctx),
+        "c01" => fschecks::c01(&ctx),
+        "c02" => fschecks::c02(&ctx),
+        "c03" => fschecks::c03(&ctx),
+        "c04" => fschecks::c04(&ctx),
+        "c05" => fschecks::c05(&ctx),
+        "c06" => fschecks::c06(&ctx),
+        "c07" => fschecks::c07(&ctx),
+        "c08" => fschecks::c08(&ctx),
+        "c09" => fschecks::c09(&ctx),
+        "c10" => fschecks::c10(&ctx),
+        "c11" => fschecks::c11(&ctx),
+        "c16" => fschecks::c16(&ctx),
         other => {
             eprintln!("unknown check {other}");
             std::process::exit(2);
